@@ -31,7 +31,11 @@ func (c *Case) Ordered() bool { return len(c.Top.Main.OrderBy) > 0 }
 func (c *Case) Coq() string {
 	obs := "ObsErr"
 	if !c.IsErr {
-		obs = "ObsRows " + CoqRows(c.Rows)
+		names := make([]string, len(c.Names))
+		for i := range c.Names {
+			names[i] = CoqName(c.Names[i])
+		}
+		obs = "ObsRows [" + strings.Join(names, "; ") + "] " + CoqRows(c.Rows)
 	}
 	return fmt.Sprintf("(%s, %s, %s)", c.Top.Coq(), CoqDB(c.G.Tables), obs)
 }
@@ -137,6 +141,7 @@ func Generate(rng *lib.Rng, n int, p Profile, bin, home, work string) ([]*Case, 
 			return
 		}
 		c.Names, c.Rows, c.ParseEr = ParseJSONOutput(c.Res.Stdout)
+		Coerce(c.Rows, c.G.MainOut)
 	})
 	return cases, nil
 }
@@ -153,10 +158,10 @@ func AddCase(cf *lib.CaseFile, c *Case) int {
 	idx := cf.Add(c.Coq(), c.JSON(), nontrivial)
 	q := c.Top.Main
 	class := ""
-	if c.G.TripleName {
-		// three select items of one name in a grouping select: the tree without the fix gives two GroupBy
-		// columns the same name (finding class; see findings/C03.txt)
-		class = "c03-triple-name"
+	if c.G.TripleName && c.G.P.TripleClass != "" {
+		// three columns of one name in a non-grouping select: the tree without the fix names them x, x_1, x_1 and
+		// the second one loses its name (finding class; see findings/C01.txt)
+		class = c.G.P.TripleClass
 		cf.SetClass(idx, class)
 	}
 	for k, n := range c.G.Shapes {
@@ -204,11 +209,6 @@ func AddCase(cf *lib.CaseFile, c *Case) int {
 	case c.IsErr && c.Inject == "":
 		// decided by the tie as well (the model gives rows); say why here
 		cf.Violation(idx, "the CLI rejected a query of the fragment: "+lastLine(c.Res.Stderr), class)
-	case !c.IsErr && len(c.Rows) > 0 && class == "":
-		want := c.G.OutNames(c.Top.Main)
-		if strings.Join(want, "\x00") != strings.Join(c.Names, "\x00") {
-			cf.Violation(idx, fmt.Sprintf("printed column names %q, expected %q", c.Names, want), "")
-		}
 	}
 	return idx
 }
@@ -265,6 +265,9 @@ func CrossCheck(c *Case, bin, home, mode string) string {
 	if c.IsErr || c.ParseEr != nil {
 		return ""
 	}
+	if mode != "noopt" && HasFloat(c.Rows) {
+		return "" // the text forms of floats belong to C25
+	}
 	switch mode {
 	case "noopt":
 		res := RunCLI(bin, home, c.Dir, c.SQL, "-o", "json", "--optimize=false")
@@ -275,6 +278,7 @@ func CrossCheck(c *Case, bin, home, mode string) string {
 		if err != nil {
 			return "--optimize=false: " + err.Error()
 		}
+		Coerce(rows, c.G.MainOut)
 		if !sameRows(c.Ordered(), c.Rows, rows) {
 			return fmt.Sprintf("--optimize=false prints different rows: %s", CoqRows(rows))
 		}
@@ -335,14 +339,19 @@ func CrossCheck(c *Case, bin, home, mode string) string {
 		if res.Crashed || res.ExitCode != 0 {
 			return "-o csv fails: " + lastLine(res.Stderr)
 		}
-		names := c.G.OutNames(c.Top.Main)
-		wantText, _ := CSVText(names, c.Rows)
+		wantText, _ := CSVText(c.Names, c.Rows)
 		wr, err1 := csv.NewReader(strings.NewReader(wantText)).ReadAll()
 		rd := csv.NewReader(bytes.NewReader(res.Stdout))
 		rd.FieldsPerRecord = -1
 		gr, err2 := rd.ReadAll()
 		if err1 != nil || err2 != nil {
 			return fmt.Sprintf("-o csv output does not parse: %v %v", err1, err2)
+		}
+		if len(c.Rows) == 0 { // no record was printed by -o json, so the column names are not known here
+			if len(gr) > 1 {
+				return fmt.Sprintf("-o csv prints %q, -o json printed no row", res.Stdout)
+			}
+			return ""
 		}
 		flat := func(recs [][]string) []string {
 			out := make([]string, len(recs))
